@@ -22,6 +22,8 @@ SCRIPTS = {
     "nested": "a = 1;\nb = call {3;\n 4};\nc = call {call {5}; 6};",
     "erroring": "a = 1;\n1 + \"x\";\nb = 2;",
     "error-in-call": "a = call {1;\n [] select 3;\n 2};\nb = 2;",
+    # a function called as a statement of its own: behind the callee's last instruction the caller's line has one instruction left
+    "call-statement": "f = {a = 1;\n b = 2};\ng = {c = 3;\n call f;\n d = 4};\ncall g;\ne = 5;\nh = 6;",
 }
 MT_SCRIPTS = {"ok": ("a = 1;", 3, 0), "err": ('1 + "x";', 3, 3), "long": (" ".join("a = %d;" % i for i in range(12)), 6, 0),
               # a loop without instructions in its body: it ends by a stop/abort only (a 1.5 s time limit is the safety net)
@@ -100,6 +102,14 @@ def run(rep, tier, seed, replay):
                 for seq in itertools.product(ACTIONS, repeat=ln):
                     n += 1
                     cases.append({"id": "q%d" % n, "script": sname, "text": text, "actions": list(seq) + ["start"]})
+        # every position of every script: k single instructions, then line steps / a leave scope and a line step
+        for sname, text in SCRIPTS.items():
+            if not text:
+                continue
+            for k in range(0, 40):
+                for tail in (["line_step", "line_step"], ["leave_scope", "line_step"], ["line_step", "leave_scope"]):
+                    n += 1
+                    cases.append({"id": "p%d" % n, "script": sname, "text": text, "actions": ["assembly_step"] * k + tail + ["start"]})
         # longer random histories
         for i in range(300 if tier == "quick" else 5000):
             sname = rng.choice(list(SCRIPTS))
